@@ -416,8 +416,13 @@ def real_case(scn):
             time.sleep(0.3)
             later = req[-2:]
         elif ph == "app":
+            t_send = time.time()
             c.send(R.Client.request(d=d))
-            time.sleep(PRE)
+            # the phase is "the application is running": wait until it says so (on a loaded machine the request may not have been
+            # read yet after a fixed nap - that would be the phase "accepted, not started")
+            if not srv.wait_started(1, 10):
+                obs["harness_error"] = "the application was not entered within 10 s of the request"
+            time.sleep(max(0.0, PRE - (time.time() - t_send)))
         elif ph == "resp":
             c.send(R.Client.request(w=d))
             c.read_until(lambda b: b"marker=" in b, time.time() + 10)
@@ -584,7 +589,10 @@ def real_scenarios(ctx):
                     if s == "INT" and a == "overrun":
                         continue
                     scns.append(scenario(c, p, a, s, graceful=4, bind=("tcp" if (len(scns) % 3 == 0) else "unix")))
-    for c in ("gevent", "eventlet", "gthread"):
+    # (not gthread: with worker_connections = 1 the thread worker is wedged by the first connection it accepts and that stays
+    # silent - the start-up probe of the harness is enough - which is C13's known finding gthread-capacity-stall, not a shutdown
+    # matter; the request of the scenario would never be read)
+    for c in ("gevent", "eventlet"):
         for s in ("TERM", "QUIT"):
             scns.append(scenario(c, "app", "finish", s, graceful=4, bind="unix", saturated=True))
     for c in ("gevent", "eventlet", "gthread"):
